@@ -198,6 +198,16 @@ def classify(facts, body, src):
                 continue
             if "prometheus::" in c.callee and c.matches(["Metric::metric", "metric"]):
                 continue
+            # effects confined to the element itself (each element is visited once, so their order cannot matter): an accessor of the proto model applied to the
+            # element alone, a (re)borrow of it, a sort of a slice inside it with a comparator that captures nothing
+            if len(c.args) == 1 and re.match(r"^prometheus::proto(_ext)?::", c.callee or "") and re.search(r"::(mut_|get_)?\w+$", strip_generics(c.callee)) \
+                    and strip_generics(c.callee).split("::")[-1].split("_")[0] in ("mut", "get", "name", "help", "metric", "label"):
+                continue
+            if c.matches(["DerefMut::deref_mut", "slice::iter_mut", "slice::iter", "Vec::iter_mut", "Vec::as_mut_slice"]) and len(c.args) == 1:
+                continue
+            if c.matches(SORTS) and contains_term(c.args[0], elem) and not any(contains_term(a, elem) for a in c.args[1:]) and \
+                    all((isinstance(a, tuple) and a and ((a[0] == "agg" and a[1] == "closure" and not a[3]) or a[0] in ("const", "fn"))) for a in c.args[1:]):
+                continue
             problems.append("element flows into unrecognised call %s at %s" % (strip_generics(c.callee_args), c.span))
 
     walk_stream(body, src.result_term())
